@@ -523,3 +523,24 @@ pub fn replay(ctx: &mut Ctx, stage: &str, case: &Value) -> Result<(), String> {
         other => Err(format!("unknown stage {other}")),
     }
 }
+
+// ------------------------------------------------------------------ valid encodings for the hostile-input engine (C15)
+
+pub fn mc_request_bytes() -> impl Strategy<Value = Vec<u8>> {
+    mc_request().prop_map(|x| to_cbor(&x).unwrap_or_default())
+}
+pub fn mc_response_bytes() -> impl Strategy<Value = Vec<u8>> {
+    mc_response().prop_map(|x| to_cbor(&x).unwrap_or_default())
+}
+pub fn ga_request_bytes() -> impl Strategy<Value = Vec<u8>> {
+    ga_request().prop_map(|x| to_cbor(&x).unwrap_or_default())
+}
+pub fn ga_response_bytes() -> impl Strategy<Value = Vec<u8>> {
+    ga_response().prop_map(|x| to_cbor(&x).unwrap_or_default())
+}
+pub fn gi_response_bytes() -> impl Strategy<Value = Vec<u8>> {
+    gi_response().prop_map(|x| to_cbor(&x).unwrap_or_default())
+}
+pub fn hmac_input_bytes() -> impl Strategy<Value = Vec<u8>> {
+    hmac_input().prop_map(|x| to_cbor(&x).unwrap_or_default())
+}
